@@ -398,6 +398,9 @@ class PShuffleInput(PStochasticPattern):
         if self.pos == 0:
             kevery = Pattern.value(self.every)
             self.values = self.pattern.nextn(kevery)
+            if len(self.values) == 0:
+                # the input is exhausted (or the block is empty): end, rather than index an empty block
+                raise StopIteration
             self.rng.shuffle(self.values)
 
         rv = self.values[self.pos]
